@@ -15,7 +15,7 @@ from props import cons as C
 from props import textcmp as T
 
 TEXTS = ['a ', 'padded   ', ' lead', 'tab\t', 'a', 'bb', "q'uote", 'double"q', 'back\\slash', 'é', '雪だるま', 'new\nline', 'x y', 'ccc', '12', 'A1', 'percent%',
-         "it's", "''", 'semi;colon', 'tab\t', 'z' * 30, 'line\u2028sep', 'para\u2029sep', 'next\x85line', 'cr\rhere']
+         "it's", "''", 'semi;colon', 'tab\t', 'z' * 30, 'line\u2028sep', 'para\u2029sep', 'next\x85line', 'cr\rhere', '', '']   # incl. the empty string (not NULL)
 F_TYPES = 'c08-declared-type-names'
 F_DATES = 'c08-date-formats'
 F_COLNAME = 'c08-quoted-column-name'
@@ -34,7 +34,8 @@ def gen_table(rng):
             elif k == 'integer':
                 cells.append(rng.choice([0, 1, -1, 7, 100, 2 ** 40, -5, 3]))
             elif k == 'real':
-                cells.append(rng.choice([0.0, 1.5, -2.25, 1e10, 0.1, 3.0, -0.5]))
+                cells.append(rng.choice([0.0, 1.5, -2.25, 1e10, 0.1, 3.0, -0.5, 0.1 + 0.2, 2 / 3, 4 / 3, -1 / 3, 22 / 7, 1e-7 / 3,
+                                         0.7999999999999999, 0.29999999999999993]))   # incl. reals needing 16-17 digits
             elif k in ('text', 'varchar'):
                 cells.append(rng.choice(TEXTS))
             elif k == 'boolean':
